@@ -340,6 +340,7 @@ Theorem pattern_quoting_roundtrip : forall p rest,
   lex_regex (pattern_pretty p ++ rest) = Some (p, rest).
 Proof.
   intros p rest Hne H1 H2. unfold pattern_pretty.
+  destruct (str_eqb p [c_dot]) eqn:Hd; [apply str_eqb_eq in Hd; subst p; vm_compute; reflexivity|].
   destruct (has c_slash p) eqn:Hs.
   - destruct (H2 eq_refl) as [Hdq Hnl].
     unfold replace. cbn [List.app]. rewrite replace1_absent by exact Hdq.
